@@ -63,6 +63,11 @@ def ops():
     typed("setfloat", "float", "f", 0, "2.5", 2.5)
     typed("setstr", "str", "s", 0, "d", "d")
     typed("setbool", "bool", "b", 0, "0", 0)
+    def self_list(m, path, src):
+        _, o = m.getopt(path)
+        return m.setlist(path, "str", [o.vals[src] if (o is not None and src < len(o.vals)) else None], False)
+    for path, src in (("sl", 1), ("sl", 0)):
+        O.append(("setlist-self %s[%d]" % (path, src), ["setlist_self", 1, H(path), src], lambda m, path=path, src=src: self_list(m, path, src)))
     typed("setstr", "str", "s", 0, None, None)                 # NULL is a value a string option can hold
     typed("setstr", "str", "sl", 1, None, None)
     typed("setfloat", "float", "fl", 1, "0.25", 0.25)
